@@ -11,6 +11,8 @@
 -/
 import Spil.Props.C18
 import Spil.Props.C12b
+import Spil.Lemmas.GlobSound
+import Spil.Lemmas.StrSplit
 
 namespace C10
 
@@ -131,6 +133,33 @@ theorem c10_literal_list_exact (e : Env) (l : List Str) (a b v : Str)
       x, y, rfl, hgx, hgy⟩
   · rintro ⟨⟨hx, _⟩, hd⟩
     exact ⟨hx, hd⟩
+
+/-- the value of a whole-segment literal IS a segment of every item the literal pattern matches
+    (`ha`, `hb`: the replaced '*' was a whole segment): "the subset HAVING THAT VALUE" read on the
+    item's own '/'-split -/
+theorem c10_literal_segment (a b v item : Str)
+    (hv : ∀ ch ∈ v, ch ≠ '/' ∧ ch ≠ '*' ∧ ch ≠ '?' ∧ ch ≠ '[')
+    (ha : a = [] ∨ ∃ a', a = a' ++ ['/']) (hb : b = [] ∨ ∃ b', b = '/' :: b')
+    (h : Glob (a ++ v ++ b) item) : v ∈ Str.splitOn '/' item := by
+  obtain ⟨x, y, rfl, hx, hy⟩ := (c10_literal_decomp a b v item hv).1 h
+  have hvs : '/' ∉ v := fun hm => (hv _ hm).1 rfl
+  -- the part after the value: empty or starting with '/'
+  have hright : v ∈ Str.splitOn '/' (v ++ y) := by
+    rcases hb with rfl | ⟨b', rfl⟩
+    · rw [(glob_nil y).1 hy, List.append_nil, Str.splitOn_of_not_mem '/' v hvs]
+      exact List.mem_singleton.2 rfl
+    · obtain ⟨y', rfl, _⟩ := (glob_lit '/' b' y (by decide) (by decide) (by decide)).1 hy
+      rw [Str.splitOn_append_sep '/' v y' hvs]
+      exact List.mem_cons_self
+  rcases ha with rfl | ⟨a', rfl⟩
+  · rw [(glob_nil x).1 hx]
+    simpa using hright
+  · obtain ⟨x1, x2, rfl, _, hx2⟩ := (glob_append a' ['/'] x).1 hx
+    have : x2 = ['/'] := (C08.c08_literal ['/'] x2 (by decide) (by decide) (by decide)).1 hx2
+    subst this
+    have e : x1 ++ ['/'] ++ v ++ y = x1 ++ '/' :: (v ++ y) := by simp
+    rw [e, GlobL.splitOn_append_sep_gen]
+    exact List.mem_append_right _ hright
 
 /-- non-vacuity: a concrete item, pattern and literal meeting the hypotheses, on both sides -/
 example : Glob ("hamlet/a/".toList ++ "char".toList ++ "/*".toList) "hamlet/a/char/ophelia".toList :=
